@@ -1614,6 +1614,65 @@ func (e *Engine) evalSum(y *EQuant, env *evalEnv, bv string, body Val) Val {
 			e.sumByExpr[y] = append(e.sumByExpr[y], sumInst{fn: fn, tmpl: tmpl, lo: lo.S})
 		}
 	}
+	// the same lemma between an instance of the sum under an enclosing quantifier (sum j :: (sum m :: f(m, j)), a
+	// function of its bound and of j) and a ground instance of the same contract expression (the inner sum for one
+	// particular j): if f(m, J) and the ground summand agree on [lo, n) the two sums agree at n
+	if rc := e.prog.Contracts[e.rootKey]; rc != nil && rc.Uses["sum_congruence"] && len(prms) <= 1 && (len(prms) == 0 || prms[0].sort == "Int") {
+		if e.sumByExprP == nil {
+			e.sumByExprP = map[*EQuant][]sumInst{}
+			e.sumByExprG = map[*EQuant][]sumInst{}
+		}
+		if e.congDone == nil {
+			e.congDone = map[string]bool{}
+		}
+		tmpl := replaceToken(body.S, bv, "%v")
+		cross := func(pi, gi sumInst) {
+			if pi.lo != gi.lo {
+				return
+			}
+			key := fmt.Sprintf("X|%s|%s|%d", pi.fn, gi.fn, e.vc.curTag)
+			if e.congDone[key] {
+				return
+			}
+			e.congDone[key] = true
+			e.qn++
+			jv := fmt.Sprintf("cj_q%d", e.qn)
+			xv := fmt.Sprintf("cx_q%d", e.qn)
+			b1 := strings.ReplaceAll(strings.ReplaceAll(pi.tmpl, "%v", jv), "%p", xv)
+			b2 := strings.ReplaceAll(gi.tmpl, "%v", jv)
+			e.vc.assume(fmt.Sprintf("(forall ((cn Int) (%s Int)) (! (=> (forall ((%s Int)) (=> (and (<= %s %s) (< %s cn)) (= %s %s))) (= (%s cn %s) (%s cn))) :pattern ((%s cn %s) (%s cn))))",
+				xv, jv, pi.lo, jv, jv, b1, b2, pi.fn, xv, gi.fn, pi.fn, xv, gi.fn))
+		}
+		if len(prms) == 1 {
+			inst := sumInst{fn: fn, tmpl: replaceToken(tmpl, prms[0].name, "%p"), lo: lo.S}
+			seen := false
+			for _, o := range e.sumByExprP[y] {
+				if o.fn == fn {
+					seen = true
+				}
+			}
+			if !seen && !hasToken(lo.S, prms[0].name) {
+				e.sumByExprP[y] = append(e.sumByExprP[y], inst)
+			}
+			for _, g := range e.sumByExprG[y] {
+				cross(inst, g)
+			}
+		} else {
+			inst := sumInst{fn: fn, tmpl: tmpl, lo: lo.S}
+			seen := false
+			for _, o := range e.sumByExprG[y] {
+				if o.fn == fn {
+					seen = true
+				}
+			}
+			if !seen {
+				e.sumByExprG[y] = append(e.sumByExprG[y], inst)
+			}
+			for _, pi := range e.sumByExprP[y] {
+				cross(pi, inst)
+			}
+		}
+	}
 	at := func(t string) string { return replaceToken(body.S, bv, t) }
 	h := hi.S
 	var allBound []string
